@@ -5,8 +5,16 @@ Calls:
   fit   : func_fit(x, y, ncoeff, invvar=, function_name=, ia=, inputans=, inputfunc=)
   trace : xy2traceset(xpos, ypos, ...) then traceset2xy(tset, xpos) and traceset2xy(tset)
   eval  : TraceSet(FITS_rec) built from given coefficients, then traceset2xy(tset, xpos or None, ignore_jump)
+  history : ONE TraceSet object (built as in trace / eval) driven through a list of operations -- evaluate, modify
+            the returned arrays in place, move xmin/xmax, rescale the coefficients, evaluate again; every evaluation
+            is compared with the same evaluation on a pristine deep copy to which only the attribute changes were
+            applied (history independence)
+Generic guards on every call: every ndarray argument is compared bit for bit with a copy taken before the call
+(`args_changed`); input classes: float64 (default), integer y / ypos (i4, i8) and all-float32 problems (`ydtype`, `xdtype`),
+for which the float64 result of the same call is returned as `ref`.
 Floats travel as JSON numbers (repr round trip is exact); non-finite results are reported as 'nonfinite'.
 """
+import copy
 import json
 import math
 import sys
@@ -39,6 +47,22 @@ def finite(*arrays):
     return all(np.all(np.isfinite(np.asarray(a, dtype='d'))) for a in arrays)
 
 
+class Guard(object):
+    """bit-exact snapshot of caller-owned arrays"""
+
+    def __init__(self, **arrays):
+        self.live = {k: v for k, v in arrays.items() if isinstance(v, np.ndarray)}
+        self.snap = {k: (v.dtype, v.shape, v.tobytes()) for k, v in self.live.items()}
+
+    def changed(self):
+        return sorted(k for k, v in self.live.items() if (v.dtype, v.shape, v.tobytes()) != self.snap[k])
+
+
+def same(a, b):
+    a, b = np.asarray(a), np.asarray(b)
+    return a.shape == b.shape and bool(np.array_equal(a, b))
+
+
 def make_fits_rec(c):
     from astropy.io import fits
     coeff = np.array(c['coeff'], dtype='d')
@@ -55,6 +79,74 @@ def make_fits_rec(c):
                  fits.Column(name='XJUMPVAL', format='D', array=np.array([val], dtype='d'))]
     hdu = fits.BinTableHDU.from_columns(cols)
     return hdu.data
+
+
+def build_traceset(mk):
+    if mk['f'] == 'eval':
+        return TraceSet(make_fits_rec(mk))
+    kw = {'func': mk['func'], 'ncoeff': mk['ncoeff']}
+    if mk.get('ivar') is not None:
+        kw['invvar'] = arr(mk['ivar'])
+    if mk.get('inmask') is not None:
+        kw['inmask'] = np.array(mk['inmask'], dtype=bool)
+    if mk.get('xmin') is not None:
+        kw['xmin'] = mk['xmin']
+    if mk.get('xmax') is not None:
+        kw['xmax'] = mk['xmax']
+    if mk.get('jump') is not None:
+        kw['xjumplo'], kw['xjumphi'], kw['xjumpval'] = mk['jump']
+    return xy2traceset(arr(mk['xpos']), arr(mk['ypos']), **kw)
+
+
+def apply_state_op(t, op):
+    """attribute changes a caller may make on a trace set"""
+    if op['op'] == 'shift':
+        t.xmin = t.xmin + op['dxmin']
+        t.xmax = t.xmax + op['dxmax']
+    elif op['op'] == 'scalecoeff':
+        t.coeff = t.coeff * op['factor']
+    else:
+        raise ValueError(op['op'])
+
+
+def history(c):
+    """one object, many calls; every evaluation is compared with the evaluation on a pristine copy that only saw the
+    attribute changes"""
+    obj = build_traceset(c['make'])
+    pristine = copy.deepcopy(obj)
+    state_ops = []
+    last = None
+    evals = []
+    for i, op in enumerate(c['ops']):
+        if op['op'] == 'xy':
+            xp = arr(op.get('xpos'))
+            g = Guard(xpos=xp)
+            x, y = obj.xy(xp, ignore_jump=bool(op.get('ignore_jump')))
+            fresh = copy.deepcopy(pristine)
+            for so in state_ops:
+                apply_state_op(fresh, so)
+            xr, yr = fresh.xy(arr(op.get('xpos')), ignore_jump=bool(op.get('ignore_jump')))
+            xmin, xmax = float(obj.xmin), float(obj.xmax)
+            rec = {'index': i, 'x': tolist(x), 'y': tolist(y), 'xmin': xmin, 'xmax': xmax,
+                   'independent': same(x, xr) and same(y, yr), 'args_changed': g.changed(),
+                   'finite': finite(x, y)}
+            if op.get('xpos') is None:
+                nx = int(math.floor(xmax - xmin + 1))
+                rec['grid_ok'] = bool(x.shape == (obj.nTrace, nx) and
+                                      all(np.array_equal(row, xmin + np.arange(nx)) for row in x))
+            evals.append(rec)
+            last = (x, y)
+        elif op['op'] == 'mutate':
+            # the caller edits, in place, the arrays the previous evaluation returned
+            if last is not None:
+                if op['what'] in ('x', 'both') and op.get('own_x', True):
+                    last[0][...] = last[0] + op['delta']
+                if op['what'] in ('y', 'both'):
+                    last[1][...] = last[1] + op['delta']
+        else:
+            apply_state_op(obj, op)
+            state_ops.append(op)
+    return {'ok': {'evals': evals, 'coeff': tolist(obj.coeff), 'xmin': float(obj.xmin), 'xmax': float(obj.xmax)}}
 
 
 def call(c):
@@ -89,14 +181,30 @@ def call(c):
                     kw['inputans'] = arr(c['ans'])
                 if c.get('ifunc') is not None:
                     kw['inputfunc'] = arr(c['ifunc'])
-                x = arr(c['x'])
-                y = arr(c['y'])
-                x0, y0 = x.copy(), y.copy()
+                xdt, ydt = c.get('xdtype', 'd'), c.get('ydtype', 'd')
+                if xdt != 'd':
+                    kw = {k: (v.astype(xdt) if v.dtype.kind == 'f' else v) for k, v in kw.items()}
+                x = arr(c['x'], xdt)
+                y = arr(c['y'], ydt)
+                g = Guard(x=x, y=y, **kw)
                 res, yfit = func_fit(x, y, c['ncoeff'], function_name=c['func'], **kw)
+                changed = g.changed()
+                # the same call again (fresh result arrays): modifying the first result must not matter
+                r1, f1 = res.copy(), yfit.copy()
+                res += 1
+                yfit += 1
+                res2, yfit2 = func_fit(x, y, c['ncoeff'], function_name=c['func'], **kw)
+                repeatable = same(res2, r1) and same(yfit2, f1)
+                res, yfit = r1, f1
                 if not finite(res, yfit):
                     return {'err': 'nonfinite'}
-                return {'ok': {'res': tolist(res), 'yfit': tolist(yfit)},
-                        'inputs_unchanged': bool(np.array_equal(x, x0) and np.array_equal(y, y0))}
+                out = {'ok': {'res': tolist(res), 'yfit': tolist(yfit)}, 'args_changed': changed, 'repeatable': repeatable,
+                       'res_dtype': str(res.dtype)}
+                if xdt != 'd' or ydt != 'd':
+                    kw64 = {k: (v.astype('d') if v.dtype.kind == 'f' else v) for k, v in kw.items()}
+                    rr, ff = func_fit(arr(c['x']), arr(c['y']), c['ncoeff'], function_name=c['func'], **kw64)
+                    out['ref'] = {'res': tolist(rr), 'yfit': tolist(ff)}
+                return out
             if f == 'trace':
                 kw = {'func': c['func'], 'ncoeff': c['ncoeff']}
                 if c.get('ivar') is not None:
@@ -110,13 +218,15 @@ def call(c):
                 if c.get('jump') is not None:
                     kw['xjumplo'], kw['xjumphi'], kw['xjumpval'] = c['jump']
                 xpos = arr(c['xpos'])
-                ypos = arr(c['ypos'])
+                ypos = arr(c['ypos'], c.get('ydtype', 'd'))
+                g = Guard(xpos=xpos, ypos=ypos, **{k: v for k, v in kw.items() if isinstance(v, np.ndarray)})
                 tset = xy2traceset(xpos, ypos, **kw)
                 x1, y1 = traceset2xy(tset, xpos)
                 x2, y2 = traceset2xy(tset)
+                changed = g.changed()
                 out = {'coeff': tolist(tset.coeff), 'yfit': tolist(tset.yfit), 'xy_x': tolist(x1), 'xy_y': tolist(y1),
                        'grid_x': tolist(x2), 'grid_y': tolist(y2), 'xmin': float(tset.xmin), 'xmax': float(tset.xmax),
-                       'nx': int(tset.nx), 'outmask_all': bool(np.all(tset.outmask))}
+                       'nx': int(tset.nx), 'outmask_all': bool(np.all(tset.outmask)), 'args_changed': changed}
                 if not finite(tset.coeff, tset.yfit, y1, y2, x2):
                     return {'err': 'nonfinite'}
                 if c.get('jump') is not None:
@@ -127,11 +237,15 @@ def call(c):
                 rec = make_fits_rec(c)
                 tset = TraceSet(rec)
                 xpos = arr(c['xpos'])
+                g = Guard(xpos=xpos)
                 x1, y1 = traceset2xy(tset, xpos, ignore_jump=bool(c.get('ignore_jump')))
                 if not finite(x1, y1):
                     return {'err': 'nonfinite'}
                 return {'ok': {'x': tolist(x1), 'y': tolist(y1), 'nx': int(tset.nx), 'has_jump': bool(tset.has_jump),
+                               'args_changed': g.changed(),
                                'ntrace': int(tset.nTrace), 'ncoeff': int(tset.ncoeff), 'func': str(tset.func)}}
+            if f == 'history':
+                return history(c)
             return {'err': 'BadCall'}
     except Exception as e:  # noqa: BLE001 - the error class is the observation
         return err(e)
